@@ -389,11 +389,11 @@ func runTreeReplay(args []string) int {
 	}
 	rep.count("hamt_sharded_archives", int(shardedRuns.Load()))
 	rep.write(out)
-	if len(rep.Inconcl) > 0 {
-		return 2
-	}
 	if len(rep.ViolClasses) > 0 {
 		return 1
+	}
+	if len(rep.Inconcl) > 0 {
+		return 2
 	}
 	return 0
 }
